@@ -79,6 +79,13 @@ func c01Profiles(tier string) []Profile {
 		Letters: coreLetters(keys, []int32{1, 2, 3}, [][]byte{bs(""), bs("ww")}, true)}
 	ps = append(ps, persisted.Profile(fmt.Sprintf("initial state: items a(2) b(3) c(1) flushed; every history of length <= %d over the core alphabet; additionally a copy of the file must re-open to the last flushed state", dCore-1)))
 
+	ns := 5
+	if tier == "thorough" {
+		ns = 6
+	}
+	shapes := shapesProfile("shapes", ns, 2, harness.Monitors{Durable: true}, nil)
+	ps = append(ps, shapes.Profile(shapesRule(ns, 2)+"; contents, totals, min/max, lookups and visits equal the model at every end state, in memory and in a re-opened copy of the file"))
+
 	mem := &SeqProfile{Name: "mem", Keys: keys, Depth: dMem, NoFile: true, Init: initX,
 		Letters: func(w *harness.World) []Letter {
 			var ls []Letter
